@@ -49,6 +49,28 @@ def main():
                         ev.append({"e": "Seq", "steps": steps, "bad": count_bad(steps)})
                     except Exception as ex:
                         ev.append({"e": "Raise", "what": type(ex).__name__ + ": " + str(ex)[:80]})
+                # histories with a truncation of the measure in the middle: from then on the compensators are those of the
+                # truncated measure (and drift queries made before the truncation must leave no trace)
+                for sq in rng.sample(seqs, 10 if quick else 40):
+                    try:
+                        m = atomic.AtomLevyModel(atoms, a=a0 * U, representation=LR[rep0], finite_variation=fv)
+                        pre = []
+                        for r in sq[:len(sq) // 2]:
+                            m.levy_triplet.set_representation(LR[r])
+                            pre.append([r, exact_int(m.levy_triplet.a / U, tol=1e-9)])
+                        m.levy_triplet.canonical_drift(); m.levy_triplet.center_drift()
+                        if not (m.levy_triplet.representation == LR.ZERO and not fv):
+                            m.levy_triplet.tilde_drift()
+                        cut = [-2 * rng.randint(8, 40), 2 * rng.randint(8, 40)]
+                        at_cut = [m.levy_triplet.representation.name, exact_int(m.levy_triplet.a / U, tol=1e-9)]
+                        m.truncate_levy_measure((cut[0] * U, cut[1] * U))
+                        post = [[m.levy_triplet.representation.name, exact_int(m.levy_triplet.a / U, tol=1e-9)]]
+                        for r in sq[len(sq) // 2:]:
+                            m.levy_triplet.set_representation(LR[r])
+                            post.append([r, exact_int(m.levy_triplet.a / U, tol=1e-9)])
+                        ev.append({"e": "SeqT", "pre": pre, "cut": cut, "at_cut": at_cut, "post": post, "bad": count_bad([pre, post, at_cut])})
+                    except Exception as ex:
+                        ev.append({"e": "Raise", "what": "truncation history: " + type(ex).__name__ + ": " + str(ex)[:80]})
                 traces.append({"tid": f"q{len(traces)}", "hdr": hdr, "ev": ev})
     # ---- real measures: path independence and reversibility as equality classes (rel 1e-9) ----------------------------
     lm = levy_models()
@@ -93,6 +115,19 @@ def main():
             trip = copy.deepcopy(model.levy_model.levy_triplet)
             rhs = model.r - model.d + model.omega + trip.zero_drift()
             ev.append({"e": "Martingale", "name": name, "route": "direct", "q": quantise(slope - rhs, 1e-12), "qi": 0})
+            # the same after the model's own triplet was converted in place: the process has not changed
+            allowed = REPRS if model.levy_model.jump_of_finite_variation() else ["ONEONE", "CENTER", "TILDE"]
+            for _ in range(3 if quick else 10):
+                mm = copy.deepcopy(model)
+                hist = [rng.choice(allowed) for _ in range(rng.randint(1, 3))]
+                for r in hist:
+                    mm.levy_triplet.set_representation(LR[r])
+                slope2 = float(np.ravel(LevyProcess(mm).deterministic_path(np.ones(1)) - LevyProcess(mm).deterministic_path(np.zeros(1)))[0])
+                phi2 = mm.log_characteristic_function(t=1.0, x=-1j)
+                fwd2 = mm.spot * np.exp(mm.r - mm.d)
+                ev.append({"e": "Martingale", "name": name + ">" + ">".join(hist), "route": "direct-after-conversion", "q": quantise(slope2 - slope, 1e-12), "qi": 0})
+                ev.append({"e": "Martingale", "name": name + ">" + ">".join(hist), "route": "charfun-after-conversion",
+                           "q": quantise(phi2.real / fwd2 - 1.0, 1e-12), "qi": quantise(phi2.imag / fwd2, 1e-12)})
         except Exception as ex:
             ev.append({"e": "Raise", "what": name + " direct " + type(ex).__name__ + ": " + str(ex)[:80]})
     traces.append({"tid": f"q{len(traces)}", "hdr": {"kind": "exp:real", "atoms_u": [], "one": 64, "fv": True, "a0": 0, "rep0": "ZERO"}, "ev": ev})
